@@ -20,15 +20,27 @@ R1  1 (stores into the attributes, resolved callees, constructor arguments throu
     decided in polynomial normal form over the atoms `<g>.checksum` and `payload_checksum(V)`; unmasking as an xor chain
     (base, [keys]) compared structurally), 6 (the single-byte key constant).
     Lemmas: [xor-len], [xor-keys-commute].
-R2  1 (constructions of BeaconConfig from `<candidate>.unmasked_beacon_config`, the for loop binding the candidate,
-    resolved iterator), 2 (truthiness atom on an edge dominating the construction), 3 (reaching definitions of the result
-    name at the `guardrails` store; conditions of a filtering comprehension / `filter(lambda ..)` renamed to the loop
-    variable), 5 (the finite set of spellings of "truthy": `x`, `bool(x)`, `x is not None`, `x != b""`, `len(x) > 0` ...).
+R2  1 (constructions of BeaconConfig from `<candidate>.unmasked_beacon_config`; the *draw* of the candidate: the for loop
+    or the `next(IT[, None])` assignment that binds it; resolved iterator), 2 (truthiness atom on an edge dominating the
+    construction - or, for the result variable of a search, dominating the copy of the drawn candidate into it; "search
+    goes on": no path from the draw to the return / raise exit avoiding the construction from that candidate, the next
+    draw (loop header / the next(..) statement) and the edges on which the drawn name is the None default of the exhausted
+    iterator; exception handlers are not followed), 3 (reaching definitions of the result name at the `guardrails` store;
+    conditions of a filtering comprehension / `filter(lambda ..)` / `iter(..)` of one renamed to the drawn name - they
+    hold in the loop body, resp. where the `next` result is known not to be the default), 5 (the finite set of spellings
+    of "truthy": `x`, `bool(x)`, `x is not None`, `x != b""`, `len(x) > 0` ...; of "absent": `x is None`, `not x`).
 R3  6 (GuardOption members and the marker table compared completely with the reference tables; the reference markers are
     the checker's own serialisation of (option, type, length) by the C definition *parsed* from the source), 1/3 (checksum
     argument of the constructor followed through copies to its decoding call; `utils.unpack` / `int.from_bytes`
     arguments through bind_args), 2 (the option test dominates the decoding), 5 (the option is compared with the enum
     member, its value or its name - vocabulary of the parsed enum).
+    Settings loop ("admits one setting per GuardOption"): 1 (the parse of a GuardrailSetting by resolved callee, its
+    innermost loop, the list the settings are appended to / a counter incremented by one), 2 (a branch edge lies on every
+    path from one parse to the next; every path from a parse to that edge passes an increment of the count), 4 (interval
+    on the count: after j parses the count is >= c0 + j, so an edge atom `count <= B` admits at most B - c0 + 1 parses;
+    the atom is brought to `count op bound` in polynomial normal form; the loop body is looked at once), 6 (bound folded
+    over module constants incl. `len` of a constant table; number of values of a constant `range` by closed form),
+    5 (required number = size of the GuardOption vocabulary).  Lemmas: [linear-bound], [range-closed-form], [count-bound].
 R4  6 (patch-size constants, marker table, integer expressions folded over module constants incl. `len` of a constant
     table element), 1 (stream operations on the file parameter, constructor arguments), 2 (which seek/read can be the last
     stream operation before a read = reachability avoiding the other operations; marker-test edge dominates the report;
@@ -61,6 +73,10 @@ Lemmas (each used as a rewrite on terms, never checked by trying values)
 [range-closed-form]  range(a, b, s) with s > 0 has max(0, ceil((b - a) / s)) values, first a, last a + (len - 1) * s
                      (CPython's own O(1) range arithmetic is used for this).
 [enumerate-index]    enumerate(data) / enumerate(data, 0) yields (i, data[i]) for i = 0 .. len(data) - 1.
+[count-bound]        a count that starts at c0, is incremented at least once between a parse and the test edge e and never
+                     decreased is >= c0 + j at e after j parses; if `count <= B` holds on e and e lies between any two parses,
+                     parse j+1 requires c0 + j <= B.  `count != K` (K >= c0 an integer) equals `count < K` when at most one
+                     increment lies between two passes of e (the count cannot step over K).
 [default-buffer-size] io.DEFAULT_BUFFER_SIZE == 8192 (CPython constant; named assumption).
 """
 
@@ -75,7 +91,7 @@ from csverif.astutil import (
     assignments_to, bind_args, conjuncts, const_eval, dotted, fn_calls, module_env, nnf, NotConst, params, src,
     statements, strip_cast,
 )
-from csverif.cfg import ENTRY, EXIT
+from csverif.cfg import ENTRY, EXIT, RAISE
 from csverif.q import FuncView, inline, origin
 
 CHECKSUM_MODULUS = 99999999
@@ -98,12 +114,17 @@ def run(ctx):
         "unmasked_beacon_config / payload_xor_key is covered by the checksum-equality edge (dominance, or all paths to a "
         "yield pass it) and stores the very value whose checksum was compared and the key it was unmasked with; every "
         "guard configuration is yielded exactly once; from_file builds a configuration from a guardrail candidate only "
-        "under a truthy unmasked config; the marker table equals the serialisation of (option, type, length) from "
-        "C_GUARDRAILS_DEF; geometry of the scan (window, offsets, bulk reads as numbers / polynomials over the scan "
+        "under a truthy unmasked config, draws its candidates (for loop or next(..)) from the validating iterator and goes on "
+        "with the next candidate after a metadata-only one (no path from the draw to return / raise except through the "
+        "construction, the next draw or the exhausted iterator); the marker table equals the serialisation of (option, type, "
+        "length) from C_GUARDRAILS_DEF; nothing limits the settings parsed per guard configuration below one per GuardOption "
+        "member (interval on the list length / counter tested between two parses); geometry of the scan (window, offsets, bulk reads as numbers / polynomials over the scan "
         "variable) and the unmasking expressions as xor chains; key-length range and checksum formula as a polynomial; "
         "escape set and loop termination of the scan."
     )
-    rep.not_decided = ["that recovery succeeds for every key/option combination (n-gram statistics)", "checksum collisions"]
+    rep.not_decided = ["that recovery succeeds for every key/option combination (n-gram statistics)", "checksum collisions",
+                       "limits on the number of parsed settings that are not a linear bound on a list length / counter (undecided when one lies between two parses)",
+                       "exhaustiveness of a search whose constructed candidate is a result variable rather than the drawn name (undecided)"]
     rep.trusted_base = [
         "CPython ast", "networkx dominators", "C-definition parser", "escape-analysis trusted base (C08)",
         "polynomial normal form (csverif.absint.SymPoly)",
@@ -114,6 +135,8 @@ def run(ctx):
         "lemma: T[i % len(T)] == i % len(T) + T[0] for a constant tuple with T[j] == T[0] + j",
         "lemma: ((a % M) + b) % M == (a + b) % M for M > 0 (reduce per step == reduce at the end)",
         "lemma: enumerate(data[, 0]) yields (i, data[i]); first/last/length of a constant range by closed form",
+        "lemma: a never-decreased count incremented after every parse is >= c0 + j after j parses; `count <= B` between two parses admits B - c0 + 1 parses",
+        "semantics of next(IT, None) / filtering comprehension / filter(lambda): first element of IT satisfying the filter, None when exhausted",
         "assumption: io.DEFAULT_BUFFER_SIZE == 8192",
     ]
     mod = ctx.repo.module("guardrails")
@@ -291,8 +314,9 @@ class _Num:
     comprehension over a constant table.  `poly` gives the polynomial of an offset expression with everything numeric
     folded and single-definition locals expanded."""
 
-    def __init__(self, ctx, f, env):
-        self.ctx, self.f, self.env = ctx, f, env
+    def __init__(self, ctx, f, env, consts=None):
+        self.ctx, self.f, self.env, self.consts = ctx, f, env, consts or {}
+        self._busy = set()
 
     def val(self, e, stop=()):
         return self._iv(_inl(self.f, e, stop)) if e is not None else None
@@ -303,6 +327,12 @@ class _Num:
             return v
         if dotted(e) in ("io.DEFAULT_BUFFER_SIZE", "DEFAULT_BUFFER_SIZE"):
             return 8192
+        if isinstance(e, ast.Name) and e.id in self.consts and e.id not in self._busy:
+            self._busy.add(e.id)  # a module constant defined by an integer expression (`N = len(TABLE)`)
+            try:
+                return self._iv(self.consts[e.id])
+            finally:
+                self._busy.discard(e.id)
         if isinstance(e, ast.UnaryOp) and isinstance(e.op, ast.USub):
             a = self._iv(e.operand)
             return None if a is None else -a
@@ -701,11 +731,11 @@ def _truthy_pred(names):
     return pred
 
 
-def _loop_source(f, loop):
-    """(iterable the loop variable is drawn from, [conditions that hold for the loop variable]): a loop over
-    `(x for x in IT if C(x))` / `[x for x in IT if C(x)]` / `filter(lambda x: C(x), IT)` draws from IT under C(<loop variable>)."""
-    it = origin(f.node, loop.iter)
-    var = loop.target.id if isinstance(loop.target, ast.Name) else None
+def _iter_source(f, it, var):
+    """(iterable the elements are drawn from, [conditions that hold for an element, written over the name `var`]): iterating
+    `(x for x in IT if C(x))` / `[x for x in IT if C(x)]` / `filter(lambda x: C(x), IT)` / `iter(..)` of one of these draws
+    from IT under C(<var>)."""
+    it = origin(f.node, it)
     conds = []
 
     def rename(e, old):
@@ -714,7 +744,7 @@ def _loop_source(f, loop):
                 return ast.copy_location(ast.Name(id=var, ctx=node.ctx), node) if node.id == old else node
         return _R().visit(copy.deepcopy(e))
 
-    for _ in range(3):
+    for _ in range(4):
         if var and isinstance(it, (ast.GeneratorExp, ast.ListComp)) and len(it.generators) == 1 and isinstance(it.generators[0].target, ast.Name) \
                 and isinstance(it.elt, ast.Name) and it.elt.id == it.generators[0].target.id:
             gen = it.generators[0]
@@ -725,9 +755,54 @@ def _loop_source(f, loop):
                 and len(it.args[0].args.args) == 1:
             conds += conjuncts(nnf(rename(it.args[0].body, it.args[0].args.args[0].arg)))
             it = origin(f.node, it.args[1])
+        elif isinstance(it, ast.Call) and dotted(it.func) == "iter" and len(it.args) == 1 and not it.keywords:
+            it = origin(f.node, it.args[0])
         else:
             break
     return it, conds
+
+
+def _loop_source(f, loop):
+    """_iter_source of a for loop binding one name."""
+    return _iter_source(f, loop.iter, loop.target.id if isinstance(loop.target, ast.Name) else None)
+
+
+class _Draw:
+    """How a local name is bound to an element of an iterable.
+    kind "for":  `for <name> in IT` - stmt is the loop; the element is drawn on the loop's iterate edge;
+    kind "next": `<name> = next(IT[, default])` - stmt is the assignment; `default` the expression delivered when IT is exhausted
+                 (None: no default, exhaustion raises StopIteration).
+    source / filters as in _iter_source."""
+
+    def __init__(self, kind, stmt, source, filters, default=None, has_default=False):
+        self.kind, self.stmt, self.source, self.filters, self.default, self.has_default = kind, stmt, source, filters, default, has_default
+
+
+def _draw_of(f, name):
+    """_Draw of a local with exactly one binding, else None."""
+    defs = assignments_to(f.node, name) if name.isidentifier() else []
+    if len(defs) != 1:
+        return None
+    st, v = defs[0]
+    if isinstance(st, ast.For) and isinstance(st.target, ast.Name):
+        source, filters = _iter_source(f, st.iter, name)
+        return _Draw("for", st, source, filters)
+    if isinstance(st, (ast.Assign, ast.AnnAssign)) and isinstance(v, ast.Call) and dotted(v.func) == "next" and 1 <= len(v.args) <= 2 and not v.keywords:
+        source, filters = _iter_source(f, v.args[0], name)
+        return _Draw("next", st, source, filters, v.args[1] if len(v.args) == 2 else None, len(v.args) == 2)
+    return None
+
+
+def _absent_pred(name):
+    """pred(atom) for atoms (nnf) that hold only when the local `name` is None / falsy (the default of an exhausted next)."""
+    def pred(a):
+        if isinstance(a, ast.UnaryOp) and isinstance(a.op, ast.Not) and src(a.operand) == name:
+            return True
+        if isinstance(a, ast.Compare) and len(a.ops) == 1 and isinstance(a.ops[0], (ast.Is, ast.Eq)):
+            l, r = a.left, a.comparators[0]
+            return any(src(x) == name and isinstance(y, ast.Constant) and y.value is None for x, y in ((l, r), (r, l)))
+        return False
+    return pred
 
 
 def r2(ctx):
@@ -750,20 +825,37 @@ def r2(ctx):
         ctx.undecided("R2", "DOM", f, "cls(<candidate>.unmasked_beacon_config)", "no construction of a BeaconConfig from a guardrail candidate's unmasked configuration found in from_file")
         return
     ctx.rep.count("guardrail_config_constructions", len(builds), floor=1)
+    by_cand = {}
+    for c, ai in builds:
+        by_cand.setdefault(src(ai.value), []).append(c)
     for c, ai in builds:
         g = src(ai.value)
         st = fv.stmt_of(c)
-        # where the candidate comes from: the for loop that binds it (possibly over a filtering comprehension, whose
-        # conditions then hold for the loop variable)
-        defs = assignments_to(f.node, g) if g.isidentifier() else []
-        loops_ = [s2 for s2, _v in defs if isinstance(s2, ast.For) and isinstance(s2.target, ast.Name)]
-        source, filters = None, []
-        if len(defs) == 1 and len(loops_) == 1:
-            source, filters = _loop_source(f, loops_[0])
-            if loops_[0] not in fv.ancestors(c):
-                filters = []
+        # where the candidate comes from: the for loop / the `next(..)` that binds it (possibly over a filtering comprehension,
+        # whose conditions then hold for the drawn element)
+        draw = _draw_of(f, g)
+        filters = []
+        if draw is not None:
+            if draw.kind == "for":
+                filters = draw.filters if draw.stmt in fv.ancestors(c) else []
+            elif not draw.has_default:
+                filters = draw.filters
+            elif _is_none(f, draw.default) and _holds_at(ctx, f, st, _truthy_pred({g})):
+                filters = draw.filters  # the drawn element is not the None default here
+        # a result variable of a search (`found = None; for x in ..: if ..: found = x; break`): the conditions under which the
+        # candidate was copied into it hold for it as well
+        copies = []
+        if draw is None and g.isidentifier():
+            defs = assignments_to(f.node, g)
+            live = [(d, v) for d, v in defs if not (v is not None and _is_none(f, v))]
+            if live and all(isinstance(v, ast.Name) and isinstance(d, ast.stmt) and cfg.has(d) for d, v in live) and _holds_at(ctx, f, st, _truthy_pred({g})):
+                copies = [(d, v.id) for d, v in live]
         pred = _truthy_pred({src(ai)})
         hold = [a for _e, a in _holds_at(ctx, f, st, pred)] + [a for a in filters if pred(a)]
+        if not hold and copies:
+            per = [[a for _e, a in _holds_at(ctx, f, d, _truthy_pred({f"{n}.unmasked_beacon_config"}))] for d, n in copies]
+            if all(per):
+                hold = per[0]
         ok = bool(hold)
         ctx.ob("R2", "DOM", f, "cls(<candidate>.unmasked_beacon_config)", ok,
                f"a configuration is built from a guardrail candidate only when its unmasked config is truthy (`{src(hold[0])}` holds)" if ok else "guardrail candidate used without testing its unmasked config", c)
@@ -788,17 +880,60 @@ def r2(ctx):
                    ("the guard metadata of the candidate is never attached to the configuration built from it" if not gs else f"guardrails attribute is not the same candidate: {[src(s2) for s2, _v in gs]}"), c)
         # the candidate comes from the checksum-validating iterator
         text = "for <candidate> in iter_guardrail_configs_with_beacon(..)"
-        if source is None:
-            ctx.undecided("R2", "AGREE", f, text, f"`{g}` is not bound by a single for loop: where the candidate comes from cannot be located", c)
-            continue
-        it = source
-        fq = _fq(ctx, f, it) if isinstance(it, ast.Call) else None
-        if fq == "guardrails.iter_guardrail_configs_with_beacon":
-            ctx.ob("R2", "AGREE", f, text, True, "candidates come from the checksum-validating iterator")
-        elif fq and fq.startswith("guardrails."):
-            ctx.ob("R2", "AGREE", f, text, False, f"candidates come from {fq}, not from the checksum-validating iter_guardrail_configs_with_beacon", loops_[0])
+        sdraw = draw
+        if sdraw is None and len({n for _d, n in copies}) == 1:
+            sdraw = _draw_of(f, copies[0][1])  # the result variable of a search is a copy of the drawn candidate
+        if sdraw is None:
+            ctx.undecided("R2", "AGREE", f, text, f"`{g}` is not bound by a single for loop / next(..): where the candidate comes from cannot be located", c)
         else:
-            ctx.undecided("R2", "AGREE", f, text, f"candidates are drawn from `{src(loops_[0].iter)[:60]}`, which is not a call of a guardrails iterator", loops_[0])
+            it = sdraw.source
+            fq = _fq(ctx, f, it) if isinstance(it, ast.Call) else None
+            if fq == "guardrails.iter_guardrail_configs_with_beacon":
+                ctx.ob("R2", "AGREE", f, text, True, "candidates come from the checksum-validating iterator")
+            elif fq and fq.startswith("guardrails."):
+                ctx.ob("R2", "AGREE", f, text, False, f"candidates come from {fq}, not from the checksum-validating iter_guardrail_configs_with_beacon", sdraw.stmt)
+            else:
+                ctx.undecided("R2", "AGREE", f, text, f"candidates are drawn from `{src(it)[:60]}`, which is not a call of a guardrails iterator", sdraw.stmt)
+        if c is by_cand[g][0]:
+            _r2_exhaustive(ctx, f, g, draw, [fv.stmt_of(c2) for c2 in by_cand[g]])
+
+
+def _r2_exhaustive(ctx, f, g, draw, build_stmts):
+    """The validating iterator also delivers metadata-only candidates (marker found, no key candidate matched the checksum):
+    a protected area behind such a candidate is recovered only if the search goes on.  Necessary condition on the CFG: once
+    a candidate has been drawn, the function is left (return / raise) only through a construction from that candidate;
+    every other path leads back to the next draw, or runs over an edge on which the iterator is exhausted."""
+    text = "search goes on after a candidate without unmasked config"
+    if draw is None:
+        ctx.undecided("R2", "EXIT", f, text, f"`{g}` is not bound by a single for loop / next(..): the point where a candidate is drawn cannot be located")
+        return
+    cfg = ctx.cfg(f)
+    if not cfg.has(draw.stmt) or any(s is None or not cfg.has(s) for s in build_stmts):
+        ctx.undecided("R2", "EXIT", f, text, "the draw / the construction is not a statement of the function's control-flow graph")
+        return
+    via = [cfg.node(s) for s in build_stmts]
+    via += [n for n, s in cfg.stmt.items() if isinstance(s, ast.ExceptHandler)]  # an exception is not "giving up on a candidate"
+    if draw.kind == "for":
+        start = cfg.edge_node(draw.stmt, "iter")
+        via.append(cfg.node(draw.stmt))
+        how = "the loop header"
+    else:
+        start = cfg.node(draw.stmt)
+        via.append(start)
+        how = "the next(..) that draws the following candidate"
+        if draw.has_default:
+            if not _is_none(f, draw.default):
+                ctx.undecided("R2", "EXIT", f, text, f"next(.., {src(draw.default)}): the value that stands for the exhausted iterator is not None", draw.stmt)
+                return
+            absent = _absent_pred(g)
+            via += [e for e, a in _edge_atoms(ctx, f) if absent(a)]
+            how += f" / an edge where `{g}` is the None default (iterator exhausted)"
+    leaks = [t for t in (EXIT, RAISE) if cfg.reaches(start, t, avoiding=via)]
+    ok = not leaks
+    ctx.ob("R2", "EXIT", f, text, ok,
+           f"after a candidate is drawn the function is left only through the construction from it; every other path reaches {how}" if ok else
+           "a drawn candidate can end the search without a configuration being built from it and without the iterator being exhausted "
+           "(a recoverable protected area behind a metadata-only candidate is lost): " + " -> ".join(cfg.witness_path(start, leaks[0], avoiding=via)[:8]), draw.stmt)
 
 
 # ================================================================================================================== R3
@@ -848,6 +983,7 @@ def r3(ctx, mod, env):
     ctx.ob("R3", "TABLE", "guardrails.py::GUARD_CONFIG_STARTS", "table", got_l == ref and cd.endian == ">", f"marker table {got}; serialisation of USER/COMPUTER/DOMAIN (SHORT,2) and LOCAL_IP (INT,4) from the definition: {ref}")
     f = ctx.repo.func("guardrails.iter_guardrail_configs")
     _prep(ctx, f)
+    _r3_settings_bound(ctx, f, mod, env)
     text = "checksum = u32be(setting.value)"
     ctors = _ctor_calls(ctx, f, "guardrails.GuardrailMetadata")
     args = [_ctor_args(ctx, c, "guardrails.GuardrailMetadata") for c in ctors]
@@ -906,6 +1042,146 @@ def r3(ctx, mod, env):
             ok = bool(be4 and is_value and guards)
             ctx.ob("R3", "AGREE", f, text, ok, "the stored checksum is the 4-byte big-endian value of the GUARD_PAYLOAD_CHECKSUM setting" if ok else
                    f"`{src(e)}`: 4-byte big-endian={bool(be4)}, of a setting's value={is_value}, only for the GUARD_PAYLOAD_CHECKSUM option={bool(guards)}", st)
+
+
+def _r3_settings_bound(ctx, f, mod, env):
+    """A guard configuration holds one setting per enabled guard option plus the mandatory checksum setting, i.e. up to
+    len(GuardOption) settings, and the checksum setting comes last.  Necessary condition: whatever bounds the number of
+    settings parsed per guard configuration (a test on the length of the list the parsed settings are appended to / on a
+    counter, passed between any two parses; a constant `range` driving the parse loop) admits that many parses.
+
+    Reasoning (interval on the count, loop body looked at once): let e be a branch edge carrying `count <= B` that lies on
+    every path from one parse to the next, and let every path from a parse to e pass a statement that adds one to the count
+    (which nothing in the loop decreases).  After j parses the count at e is >= c0 + j, so parse j+1 needs c0 + j <= B:
+    at most B - c0 + 1 settings are parsed.  `count != K` is `count < K` when the count cannot step over K (at most one
+    increment between two passes of e)."""
+    text = "settings loop admits one setting per GuardOption"
+    need = len(tables.GUARD_OPTIONS)
+    cfg = ctx.cfg(f)
+    fv = FuncView.of(f.node)
+    num = _Num(ctx, f, env, consts=mod.consts)
+    parses = []
+    for c in fn_calls(f.node):
+        cal = ctx.rs.resolve_call(f, c)
+        if cal.kind == "struct" and cal.struct and cal.struct[2] == "GuardrailSetting":
+            parses.append(c)
+    pst = fv.stmt_of(parses[0]) if len(parses) == 1 else None
+    loop = fv.enclosing(parses[0], (ast.While, ast.For)) if pst is not None else None
+    if pst is None or not cfg.has(pst) or loop is None:
+        ctx.undecided("R3", "ABS", f, text, f"{len(parses)} parse(s) of a GuardrailSetting inside a loop: the settings loop cannot be located")
+        return
+    P = cfg.node(pst)
+    inner = {id(n) for n in ast.walk(loop)}
+    limits = []  # (maximal number of parses, description, statement)
+    if isinstance(loop, ast.For):
+        it = _inl(f, loop.iter)
+        if isinstance(it, ast.Name) and it.id in mod.consts:
+            it = mod.consts[it.id]
+        rv = _range_values(it, num._iv)
+        if rv is not None:
+            limits.append((len(range(*rv)) if rv[2] else 0, f"`for .. in {src(loop.iter)}` runs over range{rv}", loop))
+    # ---- the counts: lists that start empty and are appended to in the loop, counters that start at a constant and are incremented
+    counts = {}  # atom text -> (initial value, tick nodes, init nodes, name)
+    for st in statements(f.node):
+        if id(st) not in inner:
+            continue
+        name = None
+        if isinstance(st, ast.Expr) and isinstance(st.value, ast.Call) and isinstance(st.value.func, ast.Attribute) and st.value.func.attr == "append" \
+                and isinstance(st.value.func.value, ast.Name) and len(st.value.args) == 1:
+            name, atom = st.value.func.value.id, f"len({st.value.func.value.id})"
+        elif isinstance(st, ast.AugAssign) and isinstance(st.op, ast.Add) and isinstance(st.target, ast.Name) and num._iv(st.value) == 1:
+            name, atom = st.target.id, st.target.id
+        if name is None or name in params(f.node) or not cfg.has(st):
+            continue
+        counts.setdefault(atom, [None, [], [], name])[1].append(cfg.node(st))
+    for atom, rec in list(counts.items()):
+        name = rec[3]
+        is_list = atom != name
+        ticks = set(rec[1])
+        ok = True
+        inits = []
+        for d, v in assignments_to(f.node, name):
+            d = d if isinstance(d, ast.stmt) else fv.stmt_of(d)
+            if d is None or not cfg.has(d):
+                ok = False
+            elif cfg.node(d) in ticks:
+                continue
+            elif id(d) in inner or v is None:
+                ok = False  # changed in the loop in another way
+            else:
+                iv = (0 if (isinstance(v, (ast.List, ast.Tuple)) and not v.elts) or (isinstance(v, ast.Call) and dotted(v.func) == "list" and not v.args) else None) if is_list else num._iv(v)
+                if iv is None:
+                    ok = False
+                inits.append((cfg.node(d), iv))
+        if is_list:
+            # any other mutation of the list in the loop (pop, clear, slice assignment, extend ..): the count is not understood
+            for n2 in ast.walk(loop):
+                if isinstance(n2, ast.Attribute) and isinstance(n2.value, ast.Name) and n2.value.id == name and n2.attr not in ("append", "__len__") \
+                        and isinstance(fv.parent.get(id(n2)), ast.Call) and fv.parent.get(id(n2)).func is n2:
+                    ok = False
+                if isinstance(n2, (ast.Subscript,)) and isinstance(n2.value, ast.Name) and n2.value.id == name and isinstance(n2.ctx, (ast.Store, ast.Del)):
+                    ok = False
+        if not ok or not inits or len({iv for _n, iv in inits}) != 1:
+            del counts[atom]
+            continue
+        rec[0], rec[2] = inits[0][1], [n for n, _iv in inits]
+    stop = {rec[3] for rec in counts.values()}
+    unread = []
+    for n, s2 in cfg.stmt.items():
+        if not isinstance(s2, (ast.If, ast.While)) or id(s2) not in inner or not counts:
+            continue
+        t = _inl(f, s2.test, stop)
+        for lab, neg in (("true", False), ("false", True)):
+            e = cfg.edge_node(s2, lab)
+            for a in conjuncts(nnf(t, neg)):
+                if not (isinstance(a, ast.Compare) and len(a.ops) == 1 and isinstance(a.ops[0], (ast.Lt, ast.LtE, ast.Gt, ast.GtE, ast.NotEq))):
+                    continue
+                pl, pr = num.poly(a.left, stop), num.poly(a.comparators[0], stop)
+                if pl is None or pr is None:
+                    continue
+                hit = [(atom, _linear(pl - pr, atom)) for atom in counts if atom in (pl - pr).atoms()]
+                if len(hit) != 1:
+                    continue
+                atom, lin = hit[0]
+                c0, ticks, inits, _name = counts[atom]
+                # the edge lies between any two parses (of one guard configuration), and every parse is counted before it
+                between = cfg.reaches(P, P, avoiding=inits) and not cfg.reaches(P, P, avoiding=[e] + inits)
+                if not between:
+                    continue
+                counted = not cfg.reaches(P, e, avoiding=list(ticks) + inits)
+                if lin is None or lin[0] == 0 or not counted:
+                    unread.append(src(a))
+                    continue
+                a_, c_ = lin
+                op = type(a.ops[0])
+                if a_ < 0:
+                    a_, c_ = -a_, -c_
+                    op = {ast.Lt: ast.Gt, ast.Gt: ast.Lt, ast.LtE: ast.GtE, ast.GtE: ast.LtE}.get(op, op)
+                bound = -c_ / a_  # [linear-bound]: count `op` bound
+                if op is ast.NotEq:
+                    steps_over = any(cfg.reaches(t1, t2, avoiding=[e] + inits) for t1 in ticks for t2 in ticks)
+                    if steps_over or bound != int(bound) or bound < c0:
+                        unread.append(src(a))
+                        continue
+                    op = ast.Lt
+                if op is ast.Lt:
+                    top = -(-bound // 1) - 1  # largest integer < bound
+                elif op is ast.LtE:
+                    top = bound // 1
+                else:
+                    continue  # a lower bound on the count does not limit the number of parses
+                limits.append((max(int(top) - c0 + 1, 1 if not cfg.dominates(e, P) else 0), f"`{src(a)}` holds between two parses with `{atom}` starting at {c0}", s2))
+    if unread and not limits:
+        ctx.undecided("R3", "ABS", f, text, f"a condition on the number of parsed settings lies between two parses but is not a linear bound the rule can read: {sorted(set(unread))[:3]}", loop)
+        return
+    bad = [(m, d, s2) for m, d, s2 in limits if m < need]
+    if bad:
+        m, d, s2 = min(bad, key=lambda x: x[0])
+        ctx.ob("R3", "ABS", f, text, False, f"at most {m} settings are parsed per guard configuration ({d}), but a guard configuration with all guard options enabled holds "
+               f"{need} settings ({', '.join(tables.GUARD_OPTIONS)}) and the checksum setting is the last one: its checksum is never read", s2)
+    else:
+        ctx.ob("R3", "ABS", f, text, True, (f"the number of settings parsed per guard configuration is limited to {min(m for m, _d, _s in limits)} >= {need} (one per GuardOption member)" if limits else
+               f"nothing limits the number of settings parsed per guard configuration below {need} (one per GuardOption member): the loop ends at the terminator / end of data"), loop)
 
 
 # ================================================================================================================== R4
